@@ -170,9 +170,13 @@ def cases(tier, mode='func'):
             cs = [c for c in cs if '.PUT.' not in c.cid or c.cid.endswith('.v1')]
         return cs
     if mode == 'copy':
-        cs = step_cases(tier, prefix='c12', checks='safety', ops=('PUT', 'GET', 'WALK'), Ms=[2], safety_owner='C11', few=True, filt=(lambda L: L['nkeys'] <= 1) if q else None)
+        e = {'VF_C12': None}
+        cs = step_cases(tier, prefix='c12', checks='safety', ops=('PUT', 'GET', 'WALK'), Ms=[2], safety_owner='C11', few=True, filt=(lambda L: L['nkeys'] <= 1) if q else None, extra=e)
         if q:
             cs = [c for c in cs if '.PUT.' not in c.cid or c.cid.endswith('.v1')]
+        # replacing a chained (multi-slot) value by a short one must leave exactly the new bytes and length (needs a free slot: M=3)
+        one_chain = lambda L: chained3(L) and L['nkeys'] == 1 and L['used'] == 2
+        cs += [c for c in step_cases(tier, prefix='c12', ops=('PUT',), Ms=[3], filt=one_chain, few=True, extra=e) if '.k0.' in c.cid]
         return cs
     if mode in ('lock', 'allocfail'):
         return []
